@@ -29,14 +29,12 @@ def term_dense(sites, term, jw=False):
     `jw=False`: the literal Kronecker product of the named matrices (identity elsewhere).  `jw=True`: the convention
     of doc/intro/JordanWigner.rst -- an operator which needs a string stands for ``[JW, ..., JW, op, Id, ...]`` and the
     term is the matrix product of its operators from left to right."""
-    res = np.eye(int(np.prod([s.dim for s in sites])))
+    mats = [np.eye(s.dim) for s in sites]  # (Kronecker factors on different sites commute: multiply site by site)
     for name, i in term:
-        mats = [np.eye(s.dim) for s in sites]
-        mats[i] = op_dense(sites[i], name)
+        mats[i] = mats[i] @ op_dense(sites[i], name)
         if jw and sites[i].op_needs_JW(name):
-            mats[:i] = [op_dense(s, 'JW') for s in sites[:i]]
-        res = res @ kron(mats)
-    return res
+            mats[:i] = [m @ op_dense(s, 'JW') for m, s in zip(mats[:i], sites[:i])]
+    return kron(mats)
 
 
 def terms_dense(sites, terms, coefs, jw=False):
